@@ -131,6 +131,17 @@ def enumerated(ctx):
             o, rend = render_all(text)
             res.append((text, True, o, rend))
     assert any(r[2] == "OK" for r in res), "enumerated family never parses: the harness is wrong"
+    # a zero (or absurd) value in every position of a small sync section, with and without events after it
+    sync = ["  0 = TS 4", "  0 = B 120000", "  96 = B 60000", "  192 = TS 3 3", "  288 = B 90000", "  300 = A 5"]
+    for k in range(len(sync) + 1):
+        for bad in ("  {t} = B 0", "  {t} = B 000", "  {t} = B ٠", "  {t} = TS 0", "  {t} = TS 0 0", "  {t} = A 0", "  {t} = B 1", "  {t} = B 99999999"):
+            for tail in ("", "  9000 = N 0 0\n", "  5 = N 0 9000\n"):
+                t = 0 if k == 0 else 1000 * k
+                body = sync[:k] + [bad.format(t=t)] + sync[k:]
+                text = ("[Song]\n{\n  Resolution = 192\n}\n[SyncTrack]\n{\n" + "\n".join(body) + "\n}\n[Events]\n{\n" + ("  9500 = E \"section x\"\n" if tail else "")
+                        + "}\n[ExpertSingle]\n{\n" + tail + "}\n")
+                o, rend = render_all(text)
+                res.append((text, True, o, rend))
     return res
 
 
